@@ -344,6 +344,11 @@ def run_check(check_name, tier, seed, workers=None, cases=None, quiet=False):
         "harness_errors": [e[1][-1500:] for e in errors[:5]],
         "cobyqa_src": os.environ.get("COBYQA_SRC", "/repo"),
     }
+    inter = [x for x in sigs if x.startswith("('threads'")]
+    if inter:
+        cov["distinct_interleavings"] = len(inter)
+        cov["interleaving_measure"] = ("distinct (number of client threads, strategy, number of baton switches, tuple of "
+                                       "the first 40 distinct code locations at which a switch happened)")
     for w in spec.get("reach", []):
         if not stats.get(w) and not kinds.get(w) and not fired.get(w):
             cov.setdefault("reach_warnings", []).append("counter %r stayed at zero" % w)
